@@ -161,6 +161,17 @@ class ProtoExporter:
         # ...
         pmod = export_external_module(emod)
 
+        # Check for another `ExternalModule` exported under the same qualified name.
+        # Equal definitions share a single declaration; differing ones are a conflict.
+        key = (pmod.name.domain, pmod.name.name)
+        for other in self.ext_modules.values():
+            if (other.name.domain, other.name.name) == key:
+                if other != pmod:
+                    msg = f"Cannot serialize {emod} due to conflicting definitions of external module {key}"
+                    raise RuntimeError(msg)
+                self.ext_modules[id(emod)] = other
+                return other
+
         # Store references to the result, and return it
         self.ext_modules[id(emod)] = pmod
         self.pkg.ext_modules.append(pmod)
